@@ -298,3 +298,33 @@ def c03(c):
         exhaustive=False,
         exhaustive_subspaces=["thorough tier only: all 2^32 guest representations through the memory-cell and array-element load positions"],
         assumptions=["inside-ness of a translated representation is the model backend's masking guarantee; the check tests RLBox's plumbing (translation applied, right instance)"]))
+
+
+# --------------------------------------------------------------------- C07
+@plan("C07")
+def c07(c):
+    units, runs = [], []
+    cfgs = ["ilp32", "narrow", "wide"]
+    for n in cfgs:
+        for b, tag in (("asan0", "asan"), ("plain1", "plain")):
+            nm = "c07_%s_%s" % (n, tag)
+            units.append(dict(name=nm, srcs=[D + "c07_memaccess.cpp"], build=b, defs=EXC + ["CFG=vsbx_" + n]))
+            for part in range(4):
+                runs.append(dict(unit=nm, label="%s[p%d]" % (nm, part), args=[part], count_distinct=(tag == "asan")))
+    if c.thorough:
+        units.append(dict(name="c07_ilp32_clang", srcs=[D + "c07_memaccess.cpp"], build="clang-asan", defs=EXC + ["CFG=vsbx_ilp32"]))
+        for part in range(4):
+            runs.append(dict(unit="c07_ilp32_clang", label="c07_ilp32_clang[p%d]" % part, args=[part], count_distinct=False))
+    return dict(units=units, runs=runs, evidence=dict(
+        level="exploration",
+        rule="case = (access form, type, offset, value). Stores (plain, tainted, p[0], volatile-to-volatile, += and ++, whole array, array element, "
+             "pointer index, nullptr, callback, function address, struct field): the whole 64 KiB region is snapshotted, everything outside the "
+             "permitted footprint is ASan-poisoned during the access, afterwards the region must equal snapshot (+) reference little-endian "
+             "encoding at [offset, offset+guest size). Loads (to tainted, UNSAFE_unverified, copy_and_verify on the reference / on the pointer / "
+             "range / array / struct pointer, index, struct field): footprint holds the reference encoding, surroundings are random, everything "
+             "else poisoned, the value must decode exactly. Offsets: first object of the region, object ending at the last byte (guard page "
+             "behind), 8-aligned interior (ASan build), every alignment 0..15 (plain build). 15 primitive types + enum, data and function "
+             "pointers, arrays, pointer arrays, 11 struct fields; ABIs ILP32, NARROW, WIDE. bool/enum cells only ever hold valid encodings.",
+        exhaustive=False,
+        assumptions=["ASan left-edge granularity is 8 bytes (exact for 8-aligned footprints); the byte diff is exact regardless",
+                     "enumerations keep their host representation (RLBox's ABI description has no enum entry)"]))
